@@ -43,7 +43,7 @@ def decorate(t):
     return extra
 
 
-def plant(t, extra, node, parent, fault):
+def plant(t, extra, node, parent, fault, salt=0):
     """-> (faulted tree, faulted extra, reference tree, reference extra, marker) or None when not applicable"""
     ft = T.clone(t)
     # map nodes of the clone by position
@@ -56,8 +56,9 @@ def plant(t, extra, node, parent, fault):
     k = T.kind(fn["cls"])
     under_layout = parent is not None and T.kind(parent["cls"]) == "layout"
     if fault == "unknown_prop":
-        name = ["noSuchProperty9", "t\u00eate", "d\u00e9but", "a\u00f1o", "\u540d\u524d", "gr\u00f6\u00dfe", "on\u00c9v\u00e9nement", "x", "\u00e9"][pos % 9]
-        line = ["%s: 1", "font { %s: 1 }", "%s.sub: 1", "QLayout.%s: 1"][(pos // 9) % 4] % name if pos % 2 else "%s: 1" % name
+        name = ["noSuchProperty9", "t\u00eate", "d\u00e9but", "a\u00f1o", "\u540d\u524d", "gr\u00f6\u00dfe", "on\u00c9v\u00e9nement", "x", "\u00e9",
+                "Text", "Modal", "Spacing", "Bogus.Foo", "QLayout.Alignment", "A.B.C", "NoSuchThing"][(pos + salt) % 16]       # also names made of capitalised components only
+        line = ["%s: 1", "font { %s: 1 }", "%s.sub: 1", "QLayout.%s: 1"][(pos // 9) % 4] % name if pos % 2 and name[0].islower() else "%s: 1" % name
         if fn["sep"] and not line.startswith(name):
             line = "%s: 1" % name
         fextra[id(fn)].append(line)
@@ -214,7 +215,7 @@ def run(chk):
             # an object whose attachments its parent layout consumes interacts with its siblings: the faults that can disturb them are always planted there
             always = ["duplicate", "dup_attached", "unknown_type"] if parent is not None and T.kind(parent["cls"]) == "layout" else []
             for fault in [f for f in FAULTS if f.startswith(SPECIFIC)] + always + r.sample([g for g in general if g not in always], 3 if quick else len(general) - len(always)):
-                p = plant(t, extra, node, parent, fault)
+                p = plant(t, extra, node, parent, fault, salt=n)
                 if p:
                     cases.append((len(cases), t, node["id"], fault.split(":")[0]) + p)
     log("C20: %d (tree, fault, position) cases" % len(cases))
